@@ -13,11 +13,16 @@ open MM MM.C08
 /-- `entry.Metric + 1` on a `uint16` -/
 def advMetric (m : Nat) : Nat := (m + 1) % 65536
 
-/-- `Manager`: own sequence counter, `localRoutes` (keyed by `network.String()` of the network
-    as given — not canonicalised), the CIDR table and its clock. -/
+/-- `Manager`: own sequence counter (shared by local CIDR, domain and forward routes),
+    `localRoutes` / `dynamicRoutes` (keyed by `network.String()` of the network as given — not
+    canonicalised), `localDomains` (keyed by the pattern as given), `localForwards`, the CIDR
+    table and its clock.  The domain / forward / agent tables are passed to the wrappers. -/
 structure Mgr where
   seq : Nat := 0
   locals : List CKey := []
+  dyn : List CKey := []
+  ldoms : List Bytes := []
+  lfwds : List Bytes := []
   st : State CKey IPNet := ⟨0, []⟩
 
 /-- `AddLocalRoute(network, metric)` -/
@@ -57,6 +62,87 @@ def Mgr.disconnect (m : Mgr) (peer : Nat) : Mgr :=
 /-- `CleanupStaleRoutes(maxAge)` -/
 def Mgr.cleanup (self : Nat) (m : Mgr) (maxAge : Nat) : Mgr :=
   { m with st := ⟨m.st.now, cleanupStale self m.st.now maxAge m.st.tab⟩ }
+
+/-- `AddDynamicRoute(network, metric)`: refused when the key is a config-only local route -/
+def Mgr.addDynamic (self : Nat) (m : Mgr) (n : IPNet) (metric : Nat) : Mgr × Bool :=
+  let key := eff n
+  if m.locals.contains key && !m.dyn.contains key then (m, false)
+  else
+    let seq := m.seq + 1
+    let e : Entry IPNet := ⟨n, self, self, metric, seq, [], m.st.now⟩
+    let r := addRoute cidrCfg self m.st.tab e
+    ({ m with seq := seq,
+              locals := if m.locals.contains key then m.locals else m.locals ++ [key],
+              dyn := if m.dyn.contains key then m.dyn else m.dyn ++ [key],
+              st := ⟨m.st.now, r.1⟩ }, true)
+
+/-- `RemoveDynamicRoute(network)`: only routes added through `AddDynamicRoute` -/
+def Mgr.removeDynamic (self : Nat) (m : Mgr) (n : IPNet) : Mgr × Bool :=
+  let key := eff n
+  if !m.dyn.contains key then (m, false)
+  else
+    let r := removeRoute m.st.tab (cidrKey n) self
+    ({ m with locals := m.locals.filter (· != key), dyn := m.dyn.filter (· != key),
+              st := ⟨m.st.now, r.1⟩ }, true)
+
+/-- `isValidDomainChar` (any byte ≥ 0x80 belongs to a non-ASCII or ill-formed rune: invalid) -/
+def validDomainChar (b : UInt8) : Bool :=
+  (97 ≤ b.toNat && b.toNat ≤ 122) || (65 ≤ b.toNat && b.toNat ≤ 90) ||
+  (48 ≤ b.toNat && b.toNat ≤ 57) || b == 45 || b == 46
+
+/-- `strings.Contains(s, "..")` -/
+def hasDotDot : Bytes → Bool
+  | 46 :: 46 :: _ => true
+  | _ :: rest => hasDotDot rest
+  | [] => false
+
+/-- `ValidateDomainPattern(pattern) == nil` -/
+def validPattern (S : MM.C09.Str) (pattern : Bytes) : Bool :=
+  if pattern.isEmpty then false
+  else
+    let (w, base) := MM.C09.parsePattern S pattern
+    let domain := if w then base else pattern
+    !domain.isEmpty && domain.head? != some 46 && domain.getLast? != some 46 &&
+    !hasDotDot domain && domain.all validDomainChar && domain.contains 46
+
+/-- `AddLocalDomainRoute(pattern, metric)` on the manager's domain table -/
+def Mgr.addLocalDomain (S : MM.C09.Str) (self : Nat) (m : Mgr) (d : State MM.C09.DKey MM.C09.DomPay)
+    (pattern : Bytes) (metric : Nat) : Mgr × State MM.C09.DKey MM.C09.DomPay × Bool :=
+  if !validPattern S pattern then (m, d, false)
+  else
+    let seq := m.seq + 1
+    let e : Entry MM.C09.DomPay := ⟨MM.C09.payOfPattern S pattern, self, self, metric, seq, [], d.now⟩
+    let r := addRoute (MM.C09.domCfg S) self d.tab e
+    ({ m with seq := seq, ldoms := if m.ldoms.contains pattern then m.ldoms else m.ldoms ++ [pattern] },
+     ⟨d.now, r.1⟩, r.2)
+
+/-- `RemoveLocalDomainRoute(pattern)` -/
+def Mgr.removeLocalDomain (S : MM.C09.Str) (self : Nat) (m : Mgr)
+    (d : State MM.C09.DKey MM.C09.DomPay) (pattern : Bytes) :
+    Mgr × State MM.C09.DKey MM.C09.DomPay × Bool :=
+  if pattern.isEmpty || !m.ldoms.contains pattern then (m, d, false)
+  else
+    let r := MM.C09.domRemove S d.tab pattern self
+    ({ m with ldoms := m.ldoms.filter (· != pattern) }, ⟨d.now, r.1⟩, r.2)
+
+/-- `AddLocalForwardRoute(key, target, metric)` -/
+def Mgr.addLocalForward (self : Nat) (m : Mgr) (f : State Bytes MM.C09.FwdPay)
+    (key target : Bytes) (metric : Nat) : Mgr × State Bytes MM.C09.FwdPay × Bool :=
+  if key.isEmpty || target.isEmpty then (m, f, false)
+  else
+    let seq := m.seq + 1
+    let e : Entry MM.C09.FwdPay := ⟨⟨key, target⟩, self, self, metric, seq, [], f.now⟩
+    let r := addRoute MM.C09.fwdCfg self f.tab e
+    ({ m with seq := seq, lfwds := if m.lfwds.contains key then m.lfwds else m.lfwds ++ [key] },
+     ⟨f.now, r.1⟩, r.2)
+
+/-- `RemoveLocalForwardRoute(key)` -/
+def Mgr.removeLocalForward (self : Nat) (m : Mgr) (f : State Bytes MM.C09.FwdPay) (key : Bytes) :
+    Mgr × State Bytes MM.C09.FwdPay × Bool :=
+  if key.isEmpty || !m.lfwds.contains key then (m, f, false)
+  else
+    let r := MM.C09.fwdRemove f.tab key self
+    ({ m with lfwds := m.lfwds.filter (· != key) }, ⟨f.now, r.1⟩, r.2)
 
 def Mgr.tick (m : Mgr) (n : Nat) : Mgr := { m with st := ⟨m.st.now + n, m.st.tab⟩ }
 
